@@ -26,7 +26,8 @@ MOD = "c08"
 
 _PRIMS = {"follow", "get_packed_refs", "read_loose_ref", "read_ref", "GitFile", "abort", "close", "write", "remove",
           "exists", "lexists", "_remove_packed_ref", "write_packed_refs", "add_packed_refs", "allkeys",
-          "_invalidate_packed_refs_cache", "set_if_equals", "add_if_new", "remove_if_equals", "copy", "pop"}
+          "_invalidate_packed_refs_cache", "set_if_equals", "add_if_new", "remove_if_equals", "copy", "pop",
+          "_prune_loose_ref"}
 _REF_SUBSCRIPTS = ("self[ref]", "self._repo.refs[ref]", "self.refs[ref]", "self[name]")
 
 
@@ -42,6 +43,9 @@ def _skeleton(fn: ast.AST, only_refs: bool = False) -> list[str]:
                 txt = "call:" + name
                 if name in ("set_if_equals", "add_if_new", "remove_if_equals"):
                     txt += "(" + ", ".join(ast.unparse(a) for a in n.args[:3]) + ")"
+                elif name == "add_packed_refs":
+                    txt += "(" + ", ".join([ast.unparse(a) for a in n.args] +
+                                           [f"{k.arg}={ast.unparse(k.value)}" for k in n.keywords]) + ")"
                 if only_refs and name not in ("set_if_equals", "add_if_new", "remove_if_equals"):
                     continue
                 items.append((n.lineno, n.col_offset, txt))
@@ -75,6 +79,7 @@ SKELETONS = [
     ("refs.py", "DiskRefsContainer._remove_packed_ref", "removePackedRef", False),
     ("refs.py", "DiskRefsContainer.add_packed_refs", "addPackedRefs", False),
     ("refs.py", "DiskRefsContainer.pack_refs", "packRefs", False),
+    ("refs.py", "DiskRefsContainer._prune_loose_ref", "pruneLooseRef", None),     # optional: [] when absent
     ("refs.py", "DiskRefsContainer.set_symbolic_ref", "setSymbolicRef", False),
     ("refs.py", "DiskRefsContainer.allkeys", "allKeys", False),
     ("refs.py", "DictRefsContainer.set_if_equals", "dictSetIfEquals", False),
@@ -88,7 +93,15 @@ SKELETONS = [
 
 def translate(repo: Path) -> dict:
     trees = {f: T.module_ast(repo / "dulwich" / f) for f in {s[0] for s in SKELETONS}}
-    sk = {lean: _skeleton(T.find_def(trees[f], q), only) for f, q, lean, only in SKELETONS}
+    sk = {}
+    for f, q, lean, only in SKELETONS:
+        if only is None:
+            try:
+                sk[lean] = _skeleton(T.find_def(trees[f], q), False)
+            except T.TranslateError:
+                sk[lean] = []
+        else:
+            sk[lean] = _skeleton(T.find_def(trees[f], q), only)
 
     # symref depth bound in follow(): `if depth > N: raise SymrefLoop`
     fol = T.find_def(trees["refs.py"], "RefsContainer.follow")
@@ -120,6 +133,15 @@ def translate(repo: Path) -> dict:
     var = cands[0][4:].split(" in ")[0].strip()
     if var not in ("name", "realname"):
         raise T.TranslateError(f"add_if_new: unexpected variable {var!r} in the packed-refs test")
+    # pack_refs: does it ask add_packed_refs to prune a loose file only under the ref lock and if unchanged?
+    pcalls = [x for x in sk["packRefs"] if x.startswith("call:add_packed_refs(")]
+    if len(pcalls) != 1:
+        raise T.TranslateError(f"pack_refs: call of add_packed_refs not found: {sk['packRefs']}")
+    pack_recheck = "prune_only_if_unchanged=True" in pcalls[0]
+    if pack_recheck and not sk["pruneLooseRef"]:
+        raise T.TranslateError("pack_refs asks for pruning under the ref lock but _prune_loose_ref was not found")
+    if pack_recheck and pack_loose_first:
+        raise T.TranslateError("add_packed_refs: re-checked pruning before the rename is not a modelled combination")
     # WorkTree.commit: how often the head is read before the swap; MemoryRepo.do_commit likewise
     wt_reads = sum(1 for s in sk["worktreeCommit"] if s.startswith("getitem:"))
     mem_reads = sum(1 for s in sk["memoryDoCommit"] if s.startswith("getitem:"))
@@ -137,6 +159,8 @@ def translate(repo: Path) -> dict:
              f"def packRemovesLooseBeforeReplace : Bool := {str(pack_loose_first).lower()}",
              "/-- `add_if_new`: the packed-refs test under the lock looks up `name` (true) or `realname` (false) -/",
              f"def addIfNewChecksName : Bool := {str(var == 'name').lower()}",
+             "/-- `pack_refs` passes `prune_only_if_unchanged=True`: loose files pruned under the ref lock, if unchanged -/",
+             f"def packPrunesUnderRefLock : Bool := {str(pack_recheck).lower()}",
              "/-- number of reads of the branch head in `WorkTree.commit` / `MemoryRepo.do_commit` -/",
              f"def worktreeCommitHeadReads : Nat := {wt_reads}",
              f"def memoryCommitHeadReads : Nat := {mem_reads}",
@@ -341,8 +365,27 @@ def _run_once(setup, make_actors, root, prefix, rng=None):
         s.spawn(n, actors[n])
     choices, pend = [], []
     pre = list(prefix)
+    # assumption monitor: successive packed-refs files have pairwise distinct stat identities (the cache of
+    # get_packed_refs relies on it); checked between steps, when every actor is parked
+    pr_path = os.path.join(root, "packed-refs")
+    seen_keys, last_key, aba = {}, [None], [False]
+
+    def watch_packed_refs():
+        try:
+            st = os.stat(pr_path)
+        except OSError:
+            return
+        key = (st.st_ino, st.st_dev, st.st_size, st.st_mtime_ns, st.st_ctime_ns)
+        if key != last_key[0]:
+            last_key[0] = key
+            with open(pr_path, "rb") as f:
+                data = f.read()
+            if key in seen_keys and seen_keys[key] != data:
+                aba[0] = True
+            seen_keys[key] = data
 
     def choose(pending, history):
+        watch_packed_refs()
         ps = sorted(pending)
         pend.append([idx[p] for p in ps])
         k = len(choices)
@@ -362,6 +405,7 @@ def _run_once(setup, make_actors, root, prefix, rng=None):
     r.ev = [_canon_event(e, idx) for e in ev]
     r.ctx = ctx
     r.errors = {n: repr(s.results[n].exc) for n in names if s.results[n].exc is not None}
+    r.aba = aba[0]
     return r
 
 
@@ -449,7 +493,7 @@ def impl_explore(a):
     def pack(r):
         fin, locks, pf = _final_refs(root)
         return {"sched": r.choices, "ev": r.ev, "hist": sorted(r.ctx["hist"]), "final": fin, "locks": locks,
-                "pf": pf, "errors": r.errors}
+                "pf": pf, "errors": r.errors, "aba": r.aba}
     runs, trunc = _explore(lambda p, rng: _run_once(setup, make_actors, root, p, rng), a["mode"], pack)
     return {"runs": runs, "truncated": trunc}
 
@@ -573,7 +617,8 @@ def impl_commit_explore(a):
         finally:
             repo.close()
         return {"sched": r.choices, "ev": r.ev, "hist": sorted(r.ctx["hist"]), "final": fin, "locks": locks,
-                "pf": pf, "errors": r.errors, "tip": names.get(tip, tip and "?" + tip.decode()), "reach": reach}
+                "pf": pf, "errors": r.errors, "tip": names.get(tip, tip and "?" + tip.decode()), "reach": reach,
+                "aba": r.aba}
     try:
         runs, trunc = _explore(lambda p, rng: _run_once(setup, make_actors, git, p, rng), a["mode"], pack)
     finally:
@@ -1108,6 +1153,12 @@ def _check_runs(ctx, stream, kind, sc, runs, order, variant="coded"):
     nfail = 0
     for r, mo in zip(runs, outs):
         case = {"kind": kind, "scenario": sc, "sched": r["sched"]}
+        if r.get("aba"):
+            # two different packed-refs files of this run had the same (ino, size, mtime, ctime): the environment
+            # assumption of the model is violated for this run; it is counted, not judged
+            ctx.extra_cov["stat_identity_collisions"] = ctx.extra_cov.get("stat_identity_collisions", 0) + 1
+            ctx.count(stream + ".excluded", (json.dumps(sc, sort_keys=True), tuple(r["sched"])), False, "stat-identity-collision")
+            continue
         if kind == "mem":
             il = ";".join(r["ev"]) + " # " + "/".join(
                 "+".join(_res_str(h[4]) for h in r["hist"] if h[0] == a) for a in range(len(sc["actors"]))) + \
